@@ -391,7 +391,7 @@ def purge_props(E, res, f, removed_key):
         keep = [a for a in ap0 if not implied(res.ctx, a.key == removed_key)]
         for a in ap0:
             # aliasing with the removed signer must be decided on this path
-            P.append(('approver aliasing decided', implied(res.ctx, a.key == removed_key) or implied(res.ctx, a.key != removed_key)))
+            P.append(('oracle-precondition: approver aliasing decided', implied(res.ctx, a.key == removed_key) or implied(res.ctx, a.key != removed_key)))
         pm, pv = final_lookup(E, f['pending'], ('int', tid))
         if pm is None:
             pm, pv = True, tx
@@ -582,34 +582,34 @@ def build(tier):
     O = []
     ns = [1, 2, 3] if tier == 'quick' else [1, 2, 3, 4]
     for n in ns:
-        O.append(Obligation('multisig.propose[signers=%d]' % n, run_propose(n), props_propose,
+        O.append(Obligation('multisig.propose[signers=%d]' % n, run_propose(n), props_propose, scenario=make_scenario('Propose'),
                             descr='propose: signer only, fresh increasing id, executes iff threshold==1, send == proposal, deleted before send, balance-value >= locked',
                             bounds='%d signers (symbolic distinct ids); pending map symbolic; one call; amounts/epochs unbounded' % n, max_paths=30000))
     for n in ([2, 3] if tier == 'quick' else [1, 2, 3, 4]):
-        O.append(Obligation('multisig.approve[signers=%d]' % n, run_approve(n), props_approve,
+        O.append(Obligation('multisig.approve[signers=%d]' % n, run_approve(n), props_approve, scenario=make_scenario('Approve'),
                             descr='approve: signer only, no double approval, executes iff quorum, send == pending txn, deleted before send, lock respected',
                             bounds='%d signers; approved list of the target txn 1..%d entries; one call' % (n, n), max_paths=120000))
     for n in ([2] if tier == 'quick' else [1, 2, 3]):
-        O.append(Obligation('multisig.cancel[signers=%d]' % n, run_cancel(n), props_cancel,
+        O.append(Obligation('multisig.cancel[signers=%d]' % n, run_cancel(n), props_cancel, scenario=make_scenario('Cancel'),
                             descr='cancel: only approved[0] (a signer) may cancel; txn removed; nothing else touched',
                             bounds='%d signers; one call' % n, max_paths=60000))
     pend_q = [[], [1], [2, 1]]
     pend_t = [[], [1], [2], [2, 1], [3, 2]]
-    O.append(Obligation('multisig.add_signer[signers=2]', run_admin('add_signer', 'AddSignerParams', 2, []), props_add_signer,
+    O.append(Obligation('multisig.add_signer[signers=2]', run_admin('add_signer', 'AddSignerParams', 2, []), props_add_signer, scenario=make_scenario('AddSigner'),
                         descr='add_signer: only self; new distinct signer appended; threshold+1 iff requested; Inv', bounds='2 signers', max_paths=20000))
     for pend in (pend_q if tier == 'quick' else pend_t):
         n = 3
         if any(x > n for x in pend):
             continue
         O.append(Obligation('multisig.remove_signer[signers=%d,pending=%s]' % (n, pend), run_admin('remove_signer', 'RemoveSignerParams', n, pend),
-                            props_remove_signer, descr='remove_signer: only self; Inv; approvals of the removed signer purged, emptied txns deleted',
+                            props_remove_signer, scenario=make_scenario('RemoveSigner'), descr='remove_signer: only self; Inv; approvals of the removed signer purged, emptied txns deleted',
                             bounds='%d signers; closed pending map with approval counts %s' % (n, pend), max_paths=200000))
         O.append(Obligation('multisig.swap_signer[signers=%d,pending=%s]' % (n, pend), run_admin('swap_signer', 'SwapSignerParams', n, pend),
-                            props_swap_signer, descr='swap_signer: only self; Inv; approvals of the replaced signer purged',
+                            props_swap_signer, scenario=make_scenario('SwapSigner'), descr='swap_signer: only self; Inv; approvals of the replaced signer purged',
                             bounds='%d signers; closed pending map with approval counts %s' % (n, pend), max_paths=200000))
     O.append(Obligation('multisig.change_num_approvals_threshold[signers=3]', run_admin('change_num_approvals_threshold', 'ChangeNumApprovalsThresholdParams', 3, []),
-                        props_change_threshold, descr='threshold change: only self; 1 <= new <= |signers|', bounds='3 signers', max_paths=5000))
-    O.append(Obligation('multisig.lock_balance[signers=1]', run_admin('lock_balance', 'LockBalanceParams', 1, []), props_lock_balance,
+                        props_change_threshold, scenario=make_scenario('ChangeNumApprovalsThreshold'), descr='threshold change: only self; 1 <= new <= |signers|', bounds='3 signers', max_paths=5000))
+    O.append(Obligation('multisig.lock_balance[signers=1]', run_admin('lock_balance', 'LockBalanceParams', 1, []), props_lock_balance, scenario=make_scenario('LockBalance'),
                         descr='lock_balance: only self, only once, positive duration, non-negative amount', bounds='1 signer', max_paths=5000))
     O.append(Obligation('multisig.amount_locked', run_amount_locked, props_amount_locked,
                         descr='amount_locked = ceil(initial*remaining/duration) clamped to [0, initial]', bounds='all integers unbounded', max_paths=2000))
@@ -618,3 +618,100 @@ def build(tier):
                             descr='constructor establishes Inv: distinct resolved signers, 1<=threshold<=n, duration>=0, lock from value_received',
                             bounds='%d requested signers (any address protocol, aliasing explored)' % n, max_paths=60000))
     return O
+
+
+# ---------------------------------------------------------------------------------------
+# native replay scenarios (multisig adapter of /verif/replay)
+
+def _addr_json(m, a):
+    p = ev(m, a.proto)
+    k = ev(m, a.key)
+    if p == 0:
+        return k
+    return {{1: 'secp', 2: 'actor', 3: 'bls', 4: 'actor'}[p]: k % 250}
+
+
+def _resolve_json(E, rt, m):
+    out = []
+    for (kt, val) in rt.funcs.get('resolve', []):
+        a = AddrV(kt[1], kt[2])
+        if val.vname == 'Some':
+            out.append({'addr': _addr_json(m, a), 'id': ev(m, val.fields[('Some', 0)].v)})
+    return out
+
+
+def _txn_json(E, m, tid, tx):
+    ST, TX = _fields()
+    ap = E.deref(fget(E, tx, TX['approved'], 'Vec<Address>')).items
+    return {'id': ev(m, tid), 'to': _addr_json(m, fget(E, tx, TX['to'], ADDR)), 'value': str(ev(m, fget(E, tx, TX['value'], TOKEN).v)),
+            'method': ev(m, fget(E, tx, TX['method'], 'u64').v), 'params_hex': '', 'approved': [_addr_json(m, a) for a in ap]}
+
+
+def _hash_choice(E, res, m, hp):
+    """'none' | 'auto' | 'wrong' for the proposal_hash parameter"""
+    n = ev(m, models_fvm._symbytes_len(E, hp).v)
+    if n == 0:
+        return 'none'
+    for k, b in res.ctx.memo.items():
+        if isinstance(k, tuple) and k and k[0] == 'byteseq' and hp.name in k:
+            return 'auto' if ev(m, b) else 'wrong'
+    return 'auto'
+
+
+def make_scenario(method):
+    def scenario(E, res, m):
+        ST, TX = _fields()
+        env = res.ctx.env
+        rt, pre = env['rt'], env['pre']
+        pend = []
+        for e in base_info(E, pre['base']).entries:
+            if e[1] is True:
+                pend.append(_txn_json(E, m, e[0][1], e[2]))
+        sc = {'actor': 'multisig', 'method': method, 'signers': [ev(m, s.key) for s in pre['signers']],
+              'threshold': ev(m, pre['thr']), 'next_tx_id': ev(m, pre['nxt']), 'initial_balance': str(ev(m, pre['init'])),
+              'start_epoch': ev(m, pre['start']), 'unlock_duration': ev(m, pre['dur']), 'pending': pend,
+              'caller': ev(m, rt.caller.key), 'receiver': ev(m, rt.receiver.key), 'epoch': ev(m, rt.epoch),
+              'balance': str(ev(m, z3.Int('rt.balance'))), 'resolve': _resolve_json(E, rt, m), 'entry': 'direct',
+              'sends': send_script(E, rt, m)}
+        pa = env.get('params')
+        if method == 'Propose':
+            PP = Fields('actors/multisig/src/types.rs', 'ProposeParams')
+            sc['params'] = {'to': _addr_json(m, fget(E, pa, PP['to'], ADDR)), 'value': str(ev(m, fget(E, pa, PP['value'], TOKEN).v)),
+                            'method': ev(m, fget(E, pa, PP['method'], 'u64').v), 'params_hex': ''}
+        elif method in ('Approve', 'Cancel'):
+            sc['params'] = {'id': ev(m, fget(E, fget(E, pa, 0, 'TxnID'), 0, 'i64').v),
+                            'proposal_hash': _hash_choice(E, res, m, fget(E, pa, 1, 'std::vec::Vec<u8>'))}
+        elif method == 'AddSigner':
+            sc['params'] = {'signer': _addr_json(m, fget(E, pa, 0, ADDR)), 'increase': bool(ev(m, fget(E, pa, 1, 'bool')))}
+        elif method == 'RemoveSigner':
+            sc['params'] = {'signer': _addr_json(m, fget(E, pa, 0, ADDR)), 'decrease': bool(ev(m, fget(E, pa, 1, 'bool')))}
+        elif method == 'SwapSigner':
+            sc['params'] = {'from': _addr_json(m, fget(E, pa, 0, ADDR)), 'to': _addr_json(m, fget(E, pa, 1, ADDR))}
+        elif method == 'ChangeNumApprovalsThreshold':
+            sc['params'] = {'new_threshold': ev(m, fget(E, pa, 0, 'u64').v)}
+        elif method == 'LockBalance':
+            sc['params'] = {'start_epoch': ev(m, fget(E, pa, 0, 'i64').v), 'unlock_duration': ev(m, fget(E, pa, 1, 'i64').v),
+                            'amount': str(ev(m, fget(E, pa, 2, TOKEN).v))}
+        pred = {'result': result_pred(E, res, m), 'sends': sends_pred(E, rt, m)}
+        if res.kind == 'return' and is_ok(res.value):
+            f = state_fields(E, rt.state)
+            pred['signers'] = [ev(m, s.key) for s in f['signers']]
+            pred['threshold'] = ev(m, f['thr'])
+            pred['next_tx_id'] = ev(m, f['nxt'])
+            pred['initial_balance'] = str(ev(m, f['init']))
+            pred['start_epoch'] = ev(m, f['start'])
+            pred['unlock_duration'] = ev(m, f['dur'])
+            fin = {}
+            for e in base_info(E, pre['base']).entries:
+                if e[1] is True:
+                    fin[ev(m, e[0][1])] = e[2]
+            for (k, pres, val, _) in f['pending'].over:
+                if pres:
+                    fin[ev(m, k[1])] = val
+                else:
+                    fin.pop(ev(m, k[1]), None)
+            pred['pending'] = [{'id': i, 'approved': [_addr_json(m, a) for a in E.deref(fget(E, tx, TX['approved'], 'Vec<Address>')).items]}
+                               for i, tx in sorted(fin.items())]
+        sc['predicted'] = pred
+        return sc
+    return scenario
